@@ -14,6 +14,14 @@ mod scalar {
     use ::glam_scalar as glam;
     include!("suite.rs");
 }
+/// the same checks with `glam-assert` compiled in: the generated inputs satisfy the documented preconditions,
+/// so a panic there is a failure
+#[cfg(not(feature = "core"))]
+mod asserting {
+    pub const VARIANT: &str = "simd+glam-assert";
+    use ::glam_assert as glam;
+    include!("suite.rs");
+}
 #[cfg(feature = "core")]
 mod core_simd {
     pub const VARIANT: &str = "core";
@@ -28,6 +36,7 @@ fn main() {
     {
         subs.extend(simd::subs(&args));
         subs.extend(scalar::subs(&args));
+        subs.extend(asserting::subs(&args));
     }
     #[cfg(feature = "core")]
     {
